@@ -26,6 +26,10 @@ var zzServerNames = []string{"s1", "s2", "s3"}
 func zzC17World(vhost net.Addr) *zzC17 {
 	cfg := config.DefaultConfig
 	cfg.ForcedHosts = map[string][]string{"a.b": {"s1", "s2"}}
+	if zz.Bool() {
+		// a forced host configured with an explicitly empty list: the try list applies
+		cfg.ForcedHosts = map[string][]string{"a.b": {}}
+	}
 	cfg.Try = []string{"s2", "s3"}
 	w := &zzC17{cfg: &cfg, reg: map[string]bool{}}
 	ev := &zzEvents{}
